@@ -3,7 +3,7 @@ CONSTANTS
   Keys <- K4
   Vals <- V2
   GCMode = FALSE
-  MaxH = 4
+  MaxH = 3
   MaxDrop = 0
   MaxCh = 2
   DropShares = FALSE
